@@ -18,7 +18,7 @@ FileOf(o) == CASE o.kind = "absent" -> Absent
                [] o.kind \in {"npy", "raw"} -> [kind |-> o.kind, stats |-> St(o.stats)]
                [] o.kind = "npz" -> [kind |-> "npz", entries |-> {[key |-> o.entries[k].key, stats |-> St(o.entries[k].stats)] : k \in 1..Len(o.entries)}]
 Act == CASE Ev.op = "accv" -> AccVector(Ev.i, Ev.v)
-         [] Ev.op = "acct" -> AccTensor(Ev.i, Ev.vs)
+         [] Ev.op = "acct" -> AccTensor(Ev.i, VectorsOf(Ev.flat, Ev.shape, Ev.axis1))   \* the spec reads the layout
          [] Ev.op = "save" -> Save(Ev.i, P(Ev.p), Ev.key, Ev.ow)
          [] Ev.op = "load" -> Load(Ev.j, P(Ev.p), Ev.key)
 Obs == CASE Ev.op \in {"accv", "acct"} -> inst'[Ev.i] = St(Ev.stats)
